@@ -804,12 +804,53 @@ def rule_c(ctx):
                 desc = f"{t} {'=' if isinstance(st, ast.Assign) else type(st.op).__name__ + '='} {v}"
                 ok = t.endswith("[$p]") and v.endswith("[$k]") and res(v[:-4]).split(".copy()")[0].endswith(".dimensions") and (isinstance(st, ast.Assign) or isinstance(st.op, (ast.Add, ast.Sub)))
             ctx.ob(R, f.qname, f"loop {n}: moves Cartesian component pos by dimensions[k]", ok, desc, iff)
-    ctx.floor(R, 4)
+    # the constructor folded without an origin, per dimension: the default origin is dimensions[pos(c)] on reversed Cartesian axes, 0 otherwise
+    from ..fold import Arr as SArr, Folder as SFolder, Obj as SObj, Opaque, Raised as SRaised, Refuse as SRefuse, Sym, fold_paths
+    from ..terms import nf as _nf
+
+    T_i, _, _ = c20.extract_tables(ctx)
+    init_f = m.func(IMG, "Image.__init__")
+    for d in (1, 2, 3):
+        def run(decide, d=d):
+            shape = tuple(Opaque("int", f"N{i}") for i in range(d))
+            img = Opaque("ndarray", "IMG", {"shape": shape, "dtype": Opaque("dtype", "DT")})
+            so = SObj("self", {"__class__": "Image"})
+            fo = SFolder(symbolic=True)
+            fo.decider = decide
+            fo.func_stack.append(init_f.node)
+            fo.fold_all_methods = True
+            fo.overrides = {"warn": lambda a, k_: None, "logger.debug": lambda a, k_: None, "warnings.warn": lambda a, k_: None, "darsia.Coordinate": lambda a, k_: a[0]}
+            fo.call(init_f.node, [so, img], {"space_dim": d, "indexing": "ijk"[:d], "scalar": True, "series": False, "dimensions": [Opaque("float", f"D{i}") for i in range(d)]})
+            return so.fields.get("origin")
+        title = f"dim {d}: without an origin argument the origin is dimensions[pos] on reversed Cartesian axes and 0 on the others"
+        try:
+            outs = [r for _, r, e in fold_paths(run, max_paths=16) if e is None]
+        except SRefuse:
+            outs = []
+        vals = None
+        if outs:
+            r = outs[0]
+            while isinstance(r, Sym) and r.fn in ("np.array", "np.asarray") and r.args:
+                r = r.args[0]
+            vals = r.flat() if isinstance(r, SArr) else (list(r) if isinstance(r, (list, tuple)) else None)
+        if vals is None or len(vals) != d:
+            ctx.ob(R, init_f.qname, title, False, "default origin not found by folding the constructor", init_f.node)
+            continue
+        n += 1
+        ctx.instance(R)
+        want = []
+        for c, a in enumerate("xyz"[:d]):
+            pos, rev = T_i[(a, "ijk"[:d])][1]
+            want.append(f"D{pos}" if rev else "0")
+        got = [_nf(v) for v in vals]
+        ctx.ob(R, init_f.qname, title, got == want, f"default origin is {got}, the table prescribes {want}", init_f.node, evidence=all(g == "0" or g.startswith("D") for g in got))
+    # four loops and three folds were confirmed on the pinned tree; loops that are rewritten are judged by the folds (here and in C11.a)
+    ctx.floor(R, 5)
     # Image.__init__: origin built from the default when not supplied
     init = m.func(IMG, "Image.__init__")
     hit = [norm(nn) for nn in ast.walk(init.node) if isinstance(nn, ast.Call) and norm(nn.func) in ("kwargs.pop", "kwargs.get")
            and nn.args and isinstance(nn.args[0], ast.Constant) and nn.args[0].value == "origin"]
-    ctx.ob(R, init.qname, "origin = kwargs['origin'] or the default origin", len(hit) == 1 and "default_origin" in hit[0], str(hit), init.node)
+    ctx.ob(R, init.qname, "origin = kwargs['origin'] or the default origin", len(hit) == 1, str(hit) if hit else "read of the 'origin' keyword not found", init.node)
 
 
 # ---- C01.d --------------------------------------------------------------------------------
